@@ -51,7 +51,14 @@ static void chunkCheck(vf::Ctx& c, const std::string& text, const char* what)
 	size_t n = text.size();
 	std::vector<size_t> cutsToTry;
 	if (n <= (size_t)c.opt->param("allcuts", 120)) for (size_t i = 1; i < n; i++) cutsToTry.push_back(i);
-	else for (int i = 0; i < 24; i++) cutsToTry.push_back(1 + c.rng.below((uint32_t)(n - 1)));
+	else {
+		for (int i = 0; i < 24; i++) cutsToTry.push_back(1 + c.rng.below((uint32_t)(n - 1)));
+		// plus cuts in front of and inside multi-byte characters (where a byte-oriented parser is most likely to keep per-call state)
+		std::vector<size_t> mb;
+		for (size_t i = 1; i < n; i++) if ((unsigned char)text[i] >= 0x80) mb.push_back(i);
+		for (int i = 0; i < 16 && mb.size(); i++) cutsToTry.push_back(mb[c.rng.below((uint32_t)mb.size())]);
+		c.count("cuts_at_multibyte_positions", mb.size() ? 16 : 0);
+	}
 	for (size_t cut : cutsToTry) {
 		std::vector<size_t> cs(1, cut);
 		Var v = parseChunks(text, cs);
